@@ -51,10 +51,14 @@ def load_sources(filename,
     if not good:
         logging.error("Some required columns missing or mis-labeled")
         return None
-    # rename the table columns
-    for old, new in zip([ra_col, dec_col, peak_col, a_col, b_col, pa_col],
-                        ['ra', 'dec', 'peak_flux', 'a', 'b', 'pa']):
-        table.rename_column(old, new)
+    # rename the table columns: take the requested columns out first, so that
+    # other columns which already have one of the new names cannot clash
+    new_cols = ['ra', 'dec', 'peak_flux', 'a', 'b', 'pa']
+    picked = [table[c].copy() for c in required_cols]
+    table.remove_columns([c for c in table.colnames
+                          if c in required_cols + new_cols])
+    for col, new in zip(picked, new_cols):
+        table.add_column(col, name=new)
 
     catalog = catalogs.table_to_source_list(table)
     logging.info("read {0} sources from {1}".format(len(catalog), filename))
